@@ -106,6 +106,7 @@ DRV_PARTS = {
     'threads': ('threads_drv.cpp', ['-DDRV_THREADS']),
     'xml': ('xml_drv.cpp', ['-DDRV_XML']),
     'acc': ('acc_drv.cpp', ['-DDRV_ACC']),
+    'perturb': ('perturb.cpp', []),
 }
 
 
